@@ -4,12 +4,16 @@ from ..vlib import core
 from . import kernlib
 
 RULE = ("every program-with-plan TLC enumerates within the bounds (plans of run / run(until=number) / run(until=event) / step, stop points "
-        "coinciding with due events, until <= now) replayed on the real kernel, logs compared; generated larger programs with plans "
+        "coinciding with due events, until <= now, runs ended by an escaping failure or an until-event nobody triggers and resumed "
+        "afterwards; TLC checks RunReturnsAtItsStop on all of them) replayed on the real kernel, logs compared; generated larger programs with plans "
         "validated by TLC; every generated program is additionally executed (a) under PYTHONHASHSEED 0, 1 and 4242 in separate "
         "interpreters (logs must be identical) and (b) with the plan replaced by uninterrupted run() calls: the process-visible log of "
         "the split run must be a prefix of (normally equal to) that of the uninterrupted run. non-trivial = split_run programs etc.")
 KINDS = {"sleep": 5, "timeout": 1, "event": 2, "succeed": 2, "fail": 0.5, "spawn": 2, "yield": 4, "interrupt": 1, "cond": 1}
 PLAN = {"run": 1, "step": 3, "rununtil": 3, "runev": 2}
+# runs that end by an exception (a failure nobody handles, an until-event nobody triggers) and are followed by more runs
+AKINDS = {"sleep": 5, "timeout": 1, "event": 2, "succeed": 1, "fail": 2, "spawn": 2, "yield": 4, "raise": 1.5}
+APLAN = {"run": 1, "step": 1, "rununtil": 4, "runev": 3, "event": 0.5, "succeed": 1.5, "fail": 0.5}
 
 
 def visible(log, names):
@@ -64,11 +68,17 @@ def run(ctx, replay=None):
         return kernlib.replay(ctx, replay)
     if ctx.quick:
         kernlib.mc_replay(ctx, "KernelMC_c03.cfg")
+        kernlib.mc_replay(ctx, "KernelMC_c03abort.cfg", label="KernelMC/c03 aborted runs 1x2 plan4")
+        kernlib.gen_validate(ctx, 1000, AKINDS, plan_kinds=APLAN, max_plan=7, label="generated-plans-aborted-runs")
         tr, _ = kernlib.gen_validate(ctx, 1500, KINDS, plan_kinds=PLAN, max_plan=6, label="generated-plans")
         kernlib.gen_validate(ctx, 1200, KINDS, plan_kinds=dict(PLAN, rununtil=6), max_plan=6, label="generated-plans-float-instants",
                              **{"float": kernlib.FLOAT})
     else:
         kernlib.mc_replay(ctx, "KernelMC_c03.cfg", label="KernelMC/c03 2x2 plan4")
+        kernlib.mc_replay(ctx, "KernelMC_c03abort.cfg", {"MaxPlan = 4": "MaxPlan = 5"}, label="KernelMC/c03 aborted runs 1x2 plan5", limit=300000)
+        kernlib.mc_replay(ctx, "KernelMC_c03abort.cfg", {"MaxProc = 1": "MaxProc = 2", '"yield", "raise"': '"yield", "raise", "spawn"'},
+                          label="KernelMC/c03 aborted runs 2x2 plan4", limit=300000)
+        kernlib.gen_validate(ctx, 15000, AKINDS, plan_kinds=APLAN, max_plan=8, label="generated-plans-aborted-runs")
         kernlib.mc_replay(ctx, "KernelMC_c03.cfg", {"MaxPlan = 4": "MaxPlan = 5"}, label="KernelMC/c03 plan5", limit=300000)
         # liveness under weak fairness: every run()/step() call returns or raises, every plan completes
         ctx.mc("KernelMC", kernlib.cfg_text("KernelMC_c03live.cfg"), "kernel", label="KernelMC/c03 liveness (Returns, PlanCompletes)",
